@@ -1,12 +1,15 @@
 #!/bin/bash
 # usage: recheck.sh <seeded-id> [check args]   e.g. recheck.sh C20-w2b --cases 30000
-# applies /verif/seeded/<id>/patch.diff to /repo, runs the property's check, reverts.
+# applies /verif/seeded/<id>/patch.diff to a scratch worktree of /repo (HEAD), runs the
+# property's check against it (VERIF_REPO), removes the worktree.  /repo is not touched.
 id="$1"; shift
 P=${id%%-*}
-cd /repo && git apply --check /verif/seeded/$id/patch.diff 2>/dev/null || { echo "[$id] patch does not apply to /repo HEAD"; exit 3; }
-git apply /verif/seeded/$id/patch.diff
-trap 'git -C /repo checkout -q -- .' EXIT
-cd /verif && ./bin/check $P --no-evidence "$@" > /tmp/recheck-$id.log 2>&1
+W=/tmp/exp/rc-$id-$$
+mkdir -p /tmp/exp
+git -C /repo worktree add -q --detach $W HEAD || exit 2
+trap 'git -C /repo worktree remove --force '$W' 2>/dev/null' EXIT
+cd $W && git apply /verif/seeded/$id/patch.diff 2>/dev/null || { echo "[$id] patch does not apply to /repo HEAD"; exit 3; }
+cd /verif && VERIF_REPO=$W ./bin/check $P --no-evidence "$@" > /tmp/recheck-$id.log 2>&1
 rc=$?
 grep "^violation:\|^check: property" /tmp/recheck-$id.log | cut -c1-200 | head -6
 echo "[$id] check exit code: $rc"
